@@ -54,6 +54,28 @@ theorem reverse_is_adjoint_of_forward (n : Nat) (tape : List (Instr A)) (h dh ba
     (hw : WF n tape h dh) : pair n (rev tape h bar) dh = pair n bar (tan tape h dh) :=
   tape_adjoint n tape h dh bar hw
 
+/-- the pairing with the indicator of cell `c` on the right reads off entry `c` -/
+theorem pair_unit_right (n c : Nat) (hc : c < n) (u : Heap A) : pair n u (fun i => if i = c then 1 else 0) = u c := by
+  unfold pair
+  rw [Finset.sum_eq_single c]
+  · simp
+  · intro b _ hb; simp [hb]
+  · intro h; exact absurd (Finset.mem_range.mpr hc) h
+
+/-- **superposition**: the reverse sweep is additive in the seed on every cell whose indicator is an admissible
+tangent (an input cell: never the destination of a `comp`).  In particular, when an operand has a second
+consumer recorded after an operation, its adjoint is the sum of the two separately seeded adjoints — the identity the
+C03 run evaluates for every registered operation (a pullback that overwrites instead of accumulating breaks it). -/
+theorem reverse_sweep_superposition (n : Nat) (tape : List (Instr A)) (h b1 b2 : Heap A) (c : Nat) (hc : c < n)
+    (hw : WF n tape h (fun i => if i = c then 1 else 0)) :
+    rev tape h (fun i => b1 i + b2 i) c = rev tape h b1 c + rev tape h b2 c := by
+  rw [← pair_unit_right n c hc (rev tape h (fun i => b1 i + b2 i)), ← pair_unit_right n c hc (rev tape h b1),
+    ← pair_unit_right n c hc (rev tape h b2), tape_adjoint n tape h _ _ hw, tape_adjoint n tape h _ _ hw,
+    tape_adjoint n tape h _ _ hw]
+  unfold pair
+  rw [← Finset.sum_add_distrib]
+  exact Finset.sum_congr rfl fun i _ => by ring
+
 theorem local_adjoint_unary (dst a : Nat) (f g : A → A) : (unaryComp dst a f g).Adj := unaryComp_adj dst a f g
 theorem local_adjoint_add (dst a b : Nat) : (addComp (A := A) dst a b).Adj := addComp_adj dst a b
 theorem local_adjoint_sub (dst a b : Nat) : (subComp (A := A) dst a b).Adj := subComp_adj dst a b
